@@ -59,20 +59,22 @@ type Structured struct {
 }
 
 type Case struct {
-	ID     int         `json:"id"`
-	Kind   string      `json:"kind"` // h1 | altsvc | challenge | ...
-	Shape  string      `json:"shape"`
-	Method string      `json:"method,omitempty"`
-	Rounds []Round     `json:"rounds,omitempty"`
-	Opts   Opts        `json:"opts"`
-	S      *Structured `json:"structured,omitempty"`
-	Ended  bool        `json:"h2_end_stream_on_headers,omitempty"`
-	H3     *H3Extra    `json:"h3,omitempty"`
-	Expect string      `json:"expect,omitempty"`                          // what the generator knows the outcome must be: error | response | response-clean
-	Pre    int         `json:"exchanges_before_on_same_client,omitempty"` // rounds[0..Pre) are served to plain GETs first, the last round to the observed call
-	Model  bool        `json:"model_compared"`                            // emit an H1Case for the Coq model
-	Flood  int64       `json:"flood_heap_bound,omitempty"`
-	Input  string      `json:"input,omitempty"` // parser-level cases: the header value (hex in descriptions)
+	ID        int         `json:"id"`
+	Kind      string      `json:"kind"` // h1 | altsvc | challenge | ...
+	Shape     string      `json:"shape"`
+	Method    string      `json:"method,omitempty"`
+	Rounds    []Round     `json:"rounds,omitempty"`
+	Opts      Opts        `json:"opts"`
+	S         *Structured `json:"structured,omitempty"`
+	Ended     bool        `json:"h2_end_stream_on_headers,omitempty"`
+	H3        *H3Extra    `json:"h3,omitempty"`
+	InfoCodes []int       `json:"h2_status_sequence,omitempty"` // :status of every HEADERS block served, in order
+	Alg       *string     `json:"digest_algorithm_token,omitempty"`
+	Expect    string      `json:"expect,omitempty"`                          // what the generator knows the outcome must be: error | response | response-clean
+	Pre       int         `json:"exchanges_before_on_same_client,omitempty"` // rounds[0..Pre) are served to plain GETs first, the last round to the observed call
+	Model     bool        `json:"model_compared"`                            // emit an H1Case for the Coq model
+	Flood     int64       `json:"flood_heap_bound,omitempty"`
+	Input     string      `json:"input,omitempty"` // parser-level cases: the header value (hex in descriptions)
 }
 
 func capHex(b []byte) string {
